@@ -44,8 +44,9 @@ type Line struct {
 	Name   int     `json:"name,omitempty"` // background name index (0 = unnamed)
 	Word   int     `json:"word,omitempty"` // pattern / file index
 	Count  int     `json:"count,omitempty"`
-	Base   int     `json:"base,omitempty"` // base run time in ms
-	Ever   bool    `json:"ever,omitempty"` // background process runs until signalled
+	Base   int     `json:"base,omitempty"`  // base run time in ms
+	Ever   bool    `json:"ever,omitempty"`  // background process runs until signalled
+	Word2  int     `json:"word2,omitempty"` // second file of a two-argument exists
 }
 
 type Plan struct {
@@ -58,18 +59,44 @@ type Plan struct {
 
 var outs = []string{"", "alpha", "beta", "alpha beta alpha", "gamma"}
 var words = []string{"alpha", "beta", "gamma", "delta"}
-var names = []string{"", "one", "two"}
+var names = []string{"", "one", "two", "three"}
+
+// a background-heavy command mix: several processes in flight, collected in different orders
+var bgCmds = []string{"execbg", "execbg", "execbg", "execbg", "waitname", "waitname", "wait", "wait", "snap", "snap", "snap", "kill", "execfg", "stdout", "cmpout", "probe"}
 var golden = map[string]string{"golden/alpha.txt": "alpha\n", "golden/beta.txt": "beta\n", "golden/aba.txt": "alpha beta alpha\n", "golden/empty.txt": "", "input.txt": "gamma\n"}
 var goldenNames = []string{"golden/alpha.txt", "golden/beta.txt", "golden/aba.txt", "golden/empty.txt", "input.txt", "missing.txt"}
 
 var cmds = []string{"execfg", "execfg", "execfg", "exececho", "execbg", "execbg", "wait", "wait", "waitname", "kill", "stdout", "stdout", "stderr", "cmpout", "cmperr", "stdin", "exists",
-	"stop", "skip", "unknown", "probe", "probe", "probe", "failcmd", "phase"}
+	"stop", "skip", "unknown", "probe", "probe", "probe", "failcmd", "phase", "snap", "snap", "exists2", "exists2"}
 
 func genPlan(t *rapid.T, tier string) any {
 	p := &Plan{}
 	n := rapid.IntRange(1, 12).Draw(t, "nlines")
+	mix := cmds
+	bgHeavy := rapid.IntRange(0, 3).Draw(t, "bgheavy") == 0
+	if bgHeavy {
+		mix = bgCmds
+	}
+	if bgHeavy && rapid.Bool().Draw(t, "template") {
+		// several background commands started, then collected in a drawn order, with the
+		// script's view of stdout/stderr recorded after every collection step
+		k := rapid.IntRange(2, 4).Draw(t, "nbg")
+		for i := 0; i < k; i++ {
+			l := Line{Cmd: "execbg", Out: 1 + (i+rapid.IntRange(0, 3).Draw(t, "outrot"))%(len(outs)-1), Base: rapid.IntRange(1, 30).Draw(t, "base")}
+			l.Name = rapid.SampledFrom([]int{0, 1, 2, 3, i%3 + 1}).Draw(t, "bgname")
+			l.Code = rapid.SampledFrom([]int{0, 0, 0, 1}).Draw(t, "bgcode")
+			l.Neg = l.Code != 0 && rapid.IntRange(0, 3).Draw(t, "bgneg") != 0
+			l.Err = rapid.SampledFrom([]int{0, 0, 2}).Draw(t, "bgerr")
+			p.Lines = append(p.Lines, l)
+		}
+		for i, m := 0, rapid.IntRange(1, 4).Draw(t, "ncollect"); i < m; i++ {
+			c := Line{Cmd: rapid.SampledFrom([]string{"waitname", "waitname", "wait"}).Draw(t, "collect"), Name: rapid.IntRange(0, 7).Draw(t, "target")}
+			p.Lines = append(p.Lines, c, Line{Cmd: "snap"})
+		}
+		n = rapid.IntRange(0, 3).Draw(t, "tail")
+	}
 	for i := 0; i < n; i++ {
-		l := Line{Cmd: rapid.SampledFrom(cmds).Draw(t, "cmd")}
+		l := Line{Cmd: rapid.SampledFrom(mix).Draw(t, "cmd")}
 		for g, ng := 0, rapid.SampledFrom([]int{0, 0, 0, 1, 1, 2}).Draw(t, "nguards"); g < ng; g++ {
 			l.Guards = append(l.Guards, Guard{Cond: rapid.SampledFrom([]string{"ctrue", "cfalse", "linux", "windows"}).Draw(t, "cond"), Neg: rapid.Bool().Draw(t, "gneg")})
 		}
@@ -77,11 +104,21 @@ func genPlan(t *rapid.T, tier string) any {
 		l.Out = rapid.IntRange(0, len(outs)-1).Draw(t, "out")
 		l.Err = rapid.SampledFrom([]int{0, 0, 1, 2}).Draw(t, "err")
 		l.Code = rapid.SampledFrom([]int{0, 0, 0, 1, 2}).Draw(t, "code")
-		l.Name = rapid.IntRange(0, len(names)-1).Draw(t, "name")
+		l.Name = rapid.IntRange(0, 7).Draw(t, "name") % len(names)
 		l.Word = rapid.IntRange(0, 5).Draw(t, "word")
 		l.Count = rapid.SampledFrom([]int{0, 0, 1, 2, 3}).Draw(t, "count")
 		l.Base = rapid.IntRange(1, 30).Draw(t, "base")
 		l.Ever = rapid.IntRange(0, 2).Draw(t, "ever") == 0
+		if bgHeavy {
+			l.Ever = rapid.IntRange(0, 5).Draw(t, "everbg") == 0
+			l.Neg = rapid.IntRange(0, 7).Draw(t, "negbg") == 0
+			l.Guards = nil
+			if l.Cmd == "execbg" {
+				l.Code = 0
+				l.Out = rapid.IntRange(1, len(outs)-1).Draw(t, "outbg")
+			}
+		}
+		l.Word2 = rapid.IntRange(0, 5).Draw(t, "word2")
 		p.Lines = append(p.Lines, l)
 	}
 	p.Continue = rapid.IntRange(0, 2).Draw(t, "continue") == 0
@@ -288,6 +325,18 @@ func (e *evaluator) step(l Line, probes *[]string) (ok bool) {
 	case "exists":
 		_, exists := golden[goldenNames[l.Word%len(goldenNames)]]
 		return exists != neg
+	case "exists2":
+		// every named file must exist (or, negated, none of them may)
+		_, e1 := golden[goldenNames[l.Word%len(goldenNames)]]
+		_, e2 := golden[goldenNames[l.Word2%len(goldenNames)]]
+		if neg {
+			return !e1 && !e2
+		}
+		return e1 && e2
+	case "snap":
+		// records the exact stdout/stderr buffers as the script sees them
+		*probes = append(*probes, fmt.Sprintf("snap out=%q err=%q", e.stdout, e.stderr))
+		return true
 	case "stop":
 		if neg {
 			return false
@@ -326,6 +375,7 @@ func render(p *Plan, factor []int) (string, verdict, int) {
 		// a line is rendered even after the script has ended (it must then have no effect),
 		// but the evaluator only advances while the script is alive
 		alive := !ended
+		l.Name %= len(names)
 		if alive {
 			guardsHold := true
 			for _, g := range l.Guards {
@@ -334,13 +384,27 @@ func render(p *Plan, factor []int) (string, verdict, int) {
 					guardsHold = false
 				}
 			}
+			if guardsHold && (l.Cmd == "waitname" || l.Cmd == "kill") {
+				// aim at a background command that is actually outstanding, if there is a named one
+				var named []int
+				for _, b := range e.bgs {
+					for ni, nm := range names {
+						if ni != 0 && nm == b.name {
+							named = append(named, ni)
+						}
+					}
+				}
+				if len(named) > 0 && (l.Cmd == "waitname" || l.Name != 0) {
+					l.Name = named[p.Lines[li].Name%len(named)]
+				}
+			}
 			if guardsHold {
 				if why := e.unsupported(l, p.Continue, failed); why != "" {
 					dropped++
 					continue
 				}
 			}
-		} else if l.Cmd != "probe" && l.Cmd != "execfg" && l.Cmd != "phase" {
+		} else if l.Cmd != "probe" && l.Cmd != "execfg" && l.Cmd != "phase" && l.Cmd != "snap" {
 			continue // after the end only harmless witnesses are rendered
 		}
 		lineNo++
@@ -406,6 +470,10 @@ func render(p *Plan, factor []int) (string, verdict, int) {
 			text += "stdin " + goldenNames[l.Word%len(goldenNames)]
 		case "exists":
 			text += "exists " + goldenNames[l.Word%len(goldenNames)]
+		case "exists2":
+			text += "exists " + goldenNames[l.Word%len(goldenNames)] + " " + goldenNames[l.Word2%len(goldenNames)]
+		case "snap":
+			text += "snap"
 		case "stop":
 			text += "stop"
 		case "skip":
@@ -510,6 +578,9 @@ func run(t *testing.T, plan any, keep bool) *simcheck.Outcome {
 						simrt.Yield("probe")
 						probes = append(probes, strings.Join(args, " "))
 					},
+					"snap": func(ts *testscript.TestScript, neg bool, args []string) {
+						probes = append(probes, fmt.Sprintf("snap out=%q err=%q", ts.ReadFile("stdout"), ts.ReadFile("stderr")))
+					},
 					"failcmd": func(ts *testscript.TestScript, neg bool, args []string) {
 						ts.Fatalf("failcmd always fails")
 					},
@@ -611,7 +682,7 @@ var harness = &simcheck.Harness{
 	Property: "C01",
 	Level:    "exploration",
 	Rule: "rapid draws a script of up to 12 lines over the engine's command subset ([cond]/[!cond] guards with a custom Condition and OS conditions, !, exec foreground / background / named with seeded exit code, output and run time, " +
-		"wait [name], kill -INT, stdout / stderr with literal patterns and -count, cmp stdout|stderr file, stdin, exists, stop, skip, an unknown command, probe and failing custom commands, phase comments) and ContinueOnError; " +
+		"wait [name], kill -INT, stdout / stderr with literal patterns and -count, cmp stdout|stderr file, stdin, exists, one- and two-argument exists, stop, skip, an unknown command, probe / snap (exact stdout and stderr as the script sees them) / failing custom commands, phase comments) and ContinueOnError; " +
 		"lines whose meaning would depend on timing or is undocumented in the current state are dropped at rendering; each script runs under 2 (quick) / 3 (thorough) latency assignments with different schedule seeds; " +
 		"non-trivial = the expected verdict is not a plain pass or some probe ran; distinct by the hash of script and decision trace",
 	Gen:     genPlan,
